@@ -1,12 +1,12 @@
 package an
 
 import (
-	"sync"
-	"strings"
 	"go/constant"
 	"go/token"
 	"go/types"
 	"math"
+	"strings"
+	"sync"
 
 	"golang.org/x/tools/go/ssa"
 )
